@@ -299,6 +299,10 @@ func (c *Cluster) queryHosts(ctx context.Context, conn *ClientConn, version prim
 		return nil, ClusterInfo{}, errors.New("empty result set returned for system.local")
 	}
 	hosts = c.addHosts(hosts, rs)
+	if len(hosts) == 0 {
+		// The row doesn't describe a usable host (e.g. its address, data center or host ID is null)
+		return nil, ClusterInfo{}, errors.New("unable to create a host from the row returned for system.local")
+	}
 	row := rs.Row(0)
 	localDC := hosts[0].DC
 
